@@ -120,10 +120,16 @@ def case_fault_reopen(ctx, present, request, faulty, fault):
     w.close()
 
 
-def case_validation(ctx, present_valid, redownload_fault):
-    """validate directive rejects the cached copy of A: it is re-fetched, never served; if the re-download fails the
-    URI is not served from the cache later either"""
-    w, sizes, times, mx = setup(ctx, [A, B] if present_valid else [A])
+def case_validation(ctx, present_valid, redownload_fault, reopen=False):
+    """validate directive rejects the cached (stale) copy of A: it is re-fetched, never served - neither later in the
+    session nor after reopening the directory - also when the re-download fails"""
+    w, sizes, times, mx = setup(ctx, [B] if present_valid else [])
+    # the cached copy of A is distinguishable from a fresh download
+    w.preset_cache_file(A, sizes[A], times[A][0], times[A][1], content=("stale", A))
+    if ctx.mode == "sym":
+        ctx.assume(sizes[A] + (sizes[B] if present_valid else 0) <= mx)
+    else:
+        ctx.assume(sizes[A] + (sizes[B] if present_valid else 0) <= mx)
     cache = w.make_cache(mx, False, True)
     calls = []
 
@@ -142,18 +148,27 @@ def case_validation(ctx, present_valid, redownload_fault):
         ctx.check(ex is None and list(out) == [w.path_of(A)], "D-VAL.served")
         if ex is None:
             ctx.check(w.exists(out[0]) and w.content(out[0]) == ("ok", A), "D-VAL.content")
-    else:
+    elif redownload_fault == Fault.NOTFOUND:
         ctx.check(ex is None and list(out) == [], "D-VAL.omitted", info="rejected and not retrievable: omitted")
-    # later request without validation: must not serve a path that does not exist / the rejected copy
+    else:
+        ctx.check(ex is not None, "D-VAL.raises")
+    post = w.listing()
+    disk = {p for p in post if w.is_cache_file(p)}
+    ctx.check(set(cache._entries.values()) == disk, "D-VAL.entries", info="entries == cache files on disk")
+    ctx.check(all(post[p]["content"][0] == "ok" for p in disk), "D-VAL.rejected-gone",
+              info="the rejected copy is not kept under a cache file name")
+    # later request without validation (optionally after a restart): must not serve the rejected copy
+    if reopen:
+        cache = w.make_cache(mx, False, True, True)
     w.set_remote(A, w.remote_size[A], Fault.OK)
-    n1 = len(w.downloads())
     out2, ex2 = _request(ctx, cache, [A], "later")
     ctx.check(ex2 is None, "D-VAL.later.raises", info=f"{ex2!r}" if ex2 else None)
     if ex2 is None:
         ok = w.exists(out2[0])
         ctx.check(ok, "D-VAL.later.exists", info="a path returned for the URI exists")
         if ok:
-            ctx.check(w.content(out2[0]) == ("ok", A), "D-VAL.later.content")
+            ctx.check(w.content(out2[0]) == ("ok", A), "D-VAL.later.content",
+                      info=dict(served=w.content(out2[0]), what="the rejected copy is never served"))
     post = w.listing()
     disk = {p for p in post if w.is_cache_file(p)}
     ctx.check(set(cache._entries.values()) == disk, "D-VAL.entries", info="entries == cache files on disk")
@@ -193,6 +208,8 @@ def cases(tier):
                 add("case_fault_reopen", f"reopen_{f}_{tagof(present)}__{tagof(req)}", present=list(present),
                     request=req, faulty=A, fault=f)
     for pv in (True, False):
-        for f in (Fault.OK, Fault.NOTFOUND):
-            add("case_validation", f"validation_{'AB' if pv else 'A'}_{f}", present_valid=pv, redownload_fault=f)
+        for f in (Fault.OK, Fault.NOTFOUND, Fault.ERROR_BEFORE, Fault.ERROR_PARTIAL):
+            for ro in (False, True):
+                add("case_validation", f"validation_{'AB' if pv else 'A'}_{f}{'_reopen' if ro else ''}",
+                    present_valid=pv, redownload_fault=f, reopen=ro)
     return cs
